@@ -35,7 +35,7 @@ def main():
     env = V.san_env()
     mods = []
     if replay:
-        rp = json.load(open(replay)); mods = [(os.path.join(V.REPO, rp["path"]), rp["rate"], rp["format"], rp["frames"], rp["interp"], rp.get("sep", 40))]
+        rp = json.load(open(replay)); mods = [] if rp.get("survey") else [(os.path.join(V.REPO, rp["path"]), rp["rate"], rp["format"], rp["frames"], rp["interp"], rp.get("sep", 40))]
     else:
         files = [f for f in V.corpus_files() if os.path.getsize(f) < 600000]
         pick = sorted(rng.sample(files, min(len(files), 26 if tier == "quick" else 400)))
@@ -157,6 +157,36 @@ def main():
             ck.nontrivial((rel, rate, interp, sepv))
             if len(ck.cov["samples"]) < 2:
                 ck.sample({"module": rel, "channels": chn, "rate": rate, "interp": interp, "frames": nfr})
+    # ---- silence survey over many more modules and whole passages: all channels muted / master volume 0 must give zero accumulators and PCM
+    if not replay or json.load(open(replay)).get("survey"):
+        if replay:
+            sv = [os.path.join(V.REPO, json.load(open(replay))["path"])]
+        else:
+            files = [f for f in V.corpus_files() if os.path.getsize(f) < 600000]
+            sv = sorted(rng.sample(files, min(len(files), 220 if tier == "quick" else len(files))))
+            sv += [f for f in files if any(t in os.path.basename(f).lower() for t in ("tremolo", "tremor", "nna", "volenv", "vol-env", "macro", "filter")) and f not in sv]
+        lines = []
+        for f in sv:
+            for cfg in ("mute=ffffffffffffffff zonly", "mvol=0 zonly"):
+                lines.append("%s\t22050\t0\t%d\t1\t%s\n" % (f, 400 if tier == "quick" else 3000, cfg))
+        rs = V.run([drv], inp="".join(lines), env=env, timeout=6000)
+        blocks = rs.stdout.split("ENDRUN\n")
+        for j, l in enumerate(lines):
+            if j >= len(blocks): break
+            z = next((x.split() for x in blocks[j].split("\n") if x.startswith("Z ")), None)
+            if not z: continue
+            stats["survey_runs"] = stats.get("survey_runs", 0) + 1; stats["survey_frames"] = stats.get("survey_frames", 0) + int(z[1])
+            ck.count()
+            if int(z[2]) != 0:
+                f = sv[j // 2]
+                ck.violation({"survey": True, "path": os.path.relpath(f, V.REPO), "config": "all channels muted" if j % 2 == 0 else "master volume 0",
+                              "what": "%s: %s samples are not silent, first in frame %s" % ("all channels muted" if j % 2 == 0 else "master volume 0", z[2], z[3]),
+                              "rate": 22050, "format": 0, "frames": 400, "interp": 1,
+                              "broken": "C14 silence clause on the implementation"}, key="c14:silence")
+            else:
+                ck.nontrivial(("survey", sv[j // 2], j % 2))
+        if rs.returncode != 0:
+            ck.violation({"survey": True, "path": os.path.relpath(sv[min(len(blocks) - 1, len(lines) - 1) // 2], V.REPO), "broken": "sanitizer report / crash in the silence survey", "stderr": rs.stderr[-2000:]}, key="c14-crash")
     ck.engine_stat("mixer", **stats)
     ck.cov["rule"] = ("corpus modules with <= 8 (thorough: 32) channels, random rate / interpolation / separation; per module: full render, one solo render per channel, all-muted, master volume 0, "
                       "separation +s / -s / 0; per frame the 32-bit accumulator buffer (s->buf32), the PCM and every live voice's vol/pan/gains are read from the private mixer state; "
